@@ -156,4 +156,44 @@ theorem foldl_aggStep_inv (bw0 : String → ℝ) (n0 m0 : String → List (Optio
   | nil => exact h
   | cons i rest ih => exact ih _ (aggStep_inv bw0 n0 m0 orig l i h)
 
+theorem sameDisj_nil (a b : String) : sameDisj [] a b = true := by simp [sameDisj]
+
+theorem absorbIntoD_nil (req : AReq κ ℝ) (l : List (AReq κ ℝ)) :
+    (absorbIntoD [] req l).map (·.1) = absorbInto req l := by
+  induction l with
+  | nil => rfl
+  | cons t rest ih =>
+    simp only [absorbIntoD, absorbInto, sameDisj_nil, true_and]
+    split
+    · rfl
+    · rw [← ih]; cases absorbIntoD [] req rest <;> rfl
+
+theorem aggStepD_nil (l : List (AReq κ ℝ)) (i : Nat) : aggStepD (l, []) i = (aggStep l i, []) := by
+  unfold aggStepD aggStep
+  simp only
+  cases hf : l.find? (fun r => r.pos == i) with
+  | none => rfl
+  | some req =>
+    simp only
+    have h := absorbIntoD_nil req l
+    cases ha : absorbIntoD [] req l with
+    | none => rw [ha] at h; simp only [Option.map_none] at h; rw [← h]
+    | some x =>
+      obtain ⟨l', o, n⟩ := x
+      rw [ha] at h; simp only [Option.map_some] at h; rw [← h]
+      simp
+
+/-- without disjunctions the aggregation with disjunction bookkeeping is the plain aggregation (to which
+`aggregation_spec` applies) -/
+theorem requestsAggregationD_nil (rs : List (AReq κ ℝ)) :
+    requestsAggregationD rs [] = (requestsAggregation rs, []) := by
+  unfold requestsAggregationD requestsAggregation
+  have key : ∀ (l : List (AReq κ ℝ)) (idx : List Nat),
+      idx.foldl aggStepD (l, []) = (idx.foldl aggStep l, []) := by
+    intro l idx
+    induction idx generalizing l with
+    | nil => rfl
+    | cons j js ihj => simp only [List.foldl_cons, aggStepD_nil]; exact ihj _
+  exact key _ _
+
 end Gnpy.Response
